@@ -2,11 +2,16 @@ From Coq Require Import ZArith List Lia Bool Arith.
 From NTT Require Import CxxSem MemSem BoundedSpec.
 From NTT.gen Require Import Gen GenVec GenLoop.
 Local Open Scope Z_scope.
-Lemma bnd_u32_shape : gen_set_bounded_u32 = bnd_sh 4 (fun c => uw 32 c) (fun t c => uw 32 (uw 64 (t - c))) (fun p t c => uw 32 (uw 64 (uw 32 (p + t) - c)))
+Lemma bnd_u32_shape : gen_set_bounded_u32 = bnd_sh 4 (fun c => uw 32 c) (fun l mk k => k (Z.land l mk)) (fun t c => uw 32 (uw 64 (t - c))) (fun p t c k => k (uw 32 (uw 64 (uw 32 (p + t) - c))))
   (fun p t A c => uw 32 (uw 64 (uw 64 (p + uw 64 (t * A)) - uw 64 (c * A)))) (fun t A => uw 32 (uw 64 (t * A))).
 Proof. reflexivity. Qed.
-Lemma bnd_u64_shape : gen_set_bounded_u64 = bnd_sh 8 (fun c => c) (fun t c => uw 64 (t - c)) (fun p t c => uw 64 (uw 64 (p + t) - c))
+Lemma bnd_u64_shape : gen_set_bounded_u64 = bnd_sh 8 (fun c => c) (fun l mk k => k (Z.land l mk)) (fun t c => uw 64 (t - c)) (fun p t c k => k (uw 64 (uw 64 (p + t) - c)))
   (fun p t A c => uw 64 (uw 64 (p + uw 64 (t * A)) - uw 64 (c * A))) (fun t A => uw 64 (t * A)).
+Proof. reflexivity. Qed.
+Definition landk16 (l mk : Z) (k : Z -> option St2) : option St2 := bind (chk 32 (Z.land l mk)) (fun s => k (uw 16 s)).
+Definition stc1k16 (p t c : Z) (k : Z -> option St2) : option St2 := bind (chk 32 (p + t)) (fun s => k (uw 16 (uw 64 (uw 64 s - c)))).
+Lemma bnd_u16_shape : gen_set_bounded_u16 = bnd_sh 2 (fun c => uw 16 c) landk16 (fun t c => uw 16 (uw 64 (t - c))) stc1k16
+  (fun p t A c => uw 16 (uw 64 (uw 64 (p + uw 64 (t * A)) - uw 64 (c * A)))) (fun t A => uw 16 (uw 64 (t * A))).
 Proof. reflexivity. Qed.
 
 From Coq Require Import Znumtheory.
@@ -41,7 +46,7 @@ Proof.
   - f_equal. apply (bounded_ok 32 4); try assumption; try lia; try reflexivity.
     + apply (mask_ok 32); lia.
     + intros t Ht. rewrite (uw_small 64) by (change (2 ^ 64) with 18446744073709551616; change (2 ^ 32) with 4294967296 in Ht; lia). apply uw_small. lia.
-    + intros HA1 p t. unfold uw. rewrite HA1, !Z.mul_1_r. rewrite !mod64_32. apply sub_mod_l. reflexivity.
+    + intros HA1 p t k _ _. f_equal. unfold uw. rewrite HA1, !Z.mul_1_r. rewrite !mod64_32. apply sub_mod_l. reflexivity.
     + intros p t. unfold uw. rewrite !mod64_32.
       rewrite Zminus_mod. rewrite !mod64_32. rewrite (Zplus_mod p), mod64_32, <- Zplus_mod. rewrite <- Zminus_mod. reflexivity.
   - cbn [option_map snd]. unfold set_bounded.
@@ -50,6 +55,48 @@ Proof.
     cbv zeta. first [reflexivity | (rewrite (words_of_same (Z.to_nat (32 / 8)) n tape); reflexivity)].
 Qed.
 End B32.
+
+Lemma mod64_16 a : (a mod 2 ^ 64) mod 2 ^ 16 = a mod 2 ^ 16.
+Proof. symmetry. apply Zmod_div_mod; try reflexivity. exists (2 ^ 48). reflexivity. Qed.
+
+Section B16.
+Variables (n m : nat) (P tape data0 : list Z) (B A : Z).
+Hypothesis HB : 1 <= B.
+Hypothesis Hc : 2 * B - 1 < 2 ^ 15.
+Hypothesis HPl : (m <= length P)%nat.
+Hypothesis Htl : (n * 2 <= length tape)%nat.
+Hypothesis Htape : Forall (fun x => 0 <= x < 256) tape.
+Hypothesis Hd : length data0 = (m * n)%nat.
+Hypothesis Hsmall : Z.of_nat (m * n) < 2 ^ 61.
+Hypothesis Hn : (0 < n)%nat.
+Hypothesis Hm : (0 < m)%nat.
+Hypothesis HPr : Forall (fun p => 0 <= p < 2 ^ 16) (firstn m P).
+
+(* 16-bit limbs: `rnd[i] & mask` and `P[cm] + tmp` are computed in the promoted type int (checked: they never leave it) *)
+Theorem source_set_bounded_u16 fuel : (64 < fuel)%nat -> 0 <= A < 2 ^ 64 -> Forall (fun p => B < p) (firstn m P) ->
+  option_map snd (gen_set_bounded_u16 fuel (Z.of_nat n) data0 B A (Z.of_nat m) P tape) = set_bounded 16 n (firstn m P) B A tape.
+Proof.
+  intros Hf HA HBp. rewrite bnd_u16_shape.
+  assert (Hb : 0 < Z.log2 (2 * B - 1) + 1 <= 15).
+  { pose proof (Z.log2_nonneg (2 * B - 1)). assert (Z.log2 (2 * B - 1) < 15) by (apply Z.log2_lt_pow2; lia). lia. }
+  transitivity (option_map snd (Some (MemSem.words_of 2 n tape, concat (map (fun p => map (fun x => bnd_store_amp 16 p B A (bnd_tmp (Z.log2 (2 * B - 1) + 1) B x)) (MemSem.words_of 2 n tape)) (firstn m P))))).
+  - f_equal. apply (bounded_ok 16 2); try assumption; try lia; try reflexivity.
+    + apply (mask_ok 16); lia.
+    + intros t Ht. rewrite (uw_small 64) by (change (2 ^ 64) with 18446744073709551616; change (2 ^ 16) with 65536 in Ht; lia). apply uw_small. lia.
+    + intros l k Hl. unfold landk16. rewrite land_mask_mod' by lia.
+      assert (Hp : 0 < 2 ^ (Z.log2 (2 * B - 1) + 1) <= 2 ^ 15) by (split; [apply Z.pow_pos_nonneg; lia | apply Z.pow_le_mono_r; lia]).
+      pose proof (Z.mod_pos_bound l (2 ^ (Z.log2 (2 * B - 1) + 1)) ltac:(lia)) as Rm.
+      change (2 ^ 15) with 32768 in Hp. rewrite chk_ok by (change (2 ^ (32 - 1)) with 2147483648; lia). cbn [bind]. rewrite uw_small by (change (2 ^ 16) with 65536; lia). reflexivity.
+    + intros HA1 p t k Hp Ht. unfold stc1k16. change (2 ^ 16) with 65536 in Hp, Ht. rewrite chk_ok by (change (2 ^ (32 - 1)) with 2147483648; lia). cbn [bind]. f_equal.
+      unfold uw. rewrite HA1, !Z.mul_1_r. rewrite (Z.mod_small (p + t) (2 ^ 64)) by (change (2 ^ 64) with 18446744073709551616; lia). reflexivity.
+    + intros p t. unfold uw. rewrite !mod64_16.
+      rewrite Zminus_mod. rewrite !mod64_16. rewrite (Zplus_mod p), mod64_16, <- Zplus_mod. rewrite <- Zminus_mod. reflexivity.
+  - cbn [option_map snd]. unfold set_bounded.
+    destruct (existsb (fun p => B >=? p) (firstn m P)) eqn:E.
+    { exfalso. apply existsb_exists in E. destruct E as (p0 & Hin & Hp0). pose proof (proj1 (Forall_forall _ _) HBp p0 Hin) as Hlt. cbv beta in Hlt. apply Z.geb_le in Hp0. lia. }
+    cbv zeta. first [reflexivity | (rewrite (words_of_same (Z.to_nat (16 / 8)) n tape); reflexivity)].
+Qed.
+End B16.
 
 Section B64.
 Variables (n m : nat) (P tape data0 : list Z) (B A : Z).
@@ -62,6 +109,7 @@ Hypothesis Hd : length data0 = (m * n)%nat.
 Hypothesis Hsmall : Z.of_nat (m * n) < 2 ^ 61.
 Hypothesis Hn : (0 < n)%nat.
 Hypothesis Hm : (0 < m)%nat.
+Hypothesis HPr : Forall (fun p => 0 <= p < 2 ^ 64) (firstn m P).
 
 Theorem source_set_bounded_u64 fuel : (64 < fuel)%nat -> 0 <= A < 2 ^ 64 -> Forall (fun p => B < p) (firstn m P) ->
   option_map snd (gen_set_bounded_u64 fuel (Z.of_nat n) data0 B A (Z.of_nat m) P tape) = set_bounded 64 n (firstn m P) B A tape.
@@ -73,7 +121,7 @@ Proof.
   - f_equal. apply (bounded_ok 64 8); try assumption; try lia; try reflexivity.
     + rewrite <- (mask_ok 64 (Z.log2 (2 * B - 1) + 1)) by lia. rewrite (uw_small 64 (uw 64 (uw 64 (1 * 2 ^ (Z.log2 (2 * B - 1) + 1)) - 1))) by (apply uw_range; lia). reflexivity.
     + intros t Ht. apply uw_small. lia.
-    + intros HA1 p t. unfold uw. rewrite HA1, !Z.mul_1_r. rewrite Z.mod_mod by lia. apply sub_mod_l. reflexivity.
+    + intros HA1 p t k _ _. f_equal. unfold uw. rewrite HA1, !Z.mul_1_r. rewrite Z.mod_mod by lia. apply sub_mod_l. reflexivity.
     + intros p t. unfold uw. rewrite Z.mod_mod by lia.
       rewrite Zminus_mod. rewrite !Z.mod_mod by lia. rewrite (Zplus_mod p), Z.mod_mod, <- Zplus_mod by lia. rewrite <- Zminus_mod. reflexivity.
     + intros t. unfold uw. rewrite Z.mod_mod by lia. reflexivity.
@@ -85,9 +133,10 @@ Qed.
 End B64.
 
 Lemma source_set_bounded_throws n m P tape data0 B A fuel : Z.of_nat m < 2 ^ 61 -> (exists cm, (cm < m)%nat /\ nth cm P 0 <= B) ->
-  gen_set_bounded_u32 fuel n data0 B A (Z.of_nat m) P tape = None /\ gen_set_bounded_u64 fuel n data0 B A (Z.of_nat m) P tape = None.
+  gen_set_bounded_u16 fuel n data0 B A (Z.of_nat m) P tape = None /\ gen_set_bounded_u32 fuel n data0 B A (Z.of_nat m) P tape = None /\ gen_set_bounded_u64 fuel n data0 B A (Z.of_nat m) P tape = None.
 Proof.
-  intros Hm Hex. split.
-  - rewrite bnd_u32_shape. exact (bounded_throws _ _ _ _ _ _ fuel n data0 B A m P tape Hm Hex).
-  - rewrite bnd_u64_shape. exact (bounded_throws _ _ _ _ _ _ fuel n data0 B A m P tape Hm Hex).
+  intros Hm Hex. split; [|split].
+  - rewrite bnd_u16_shape. exact (bounded_throws _ _ _ _ _ _ _ fuel n data0 B A m P tape Hm Hex).
+  - rewrite bnd_u32_shape. exact (bounded_throws _ _ _ _ _ _ _ fuel n data0 B A m P tape Hm Hex).
+  - rewrite bnd_u64_shape. exact (bounded_throws _ _ _ _ _ _ _ fuel n data0 B A m P tape Hm Hex).
 Qed.
